@@ -346,7 +346,17 @@ func (c *Classifier) getMatchedRanges(src, target *searchSet, confidence float64
 	// significantly since processing token matches is an N^2 (or worse)
 	// operation, so reducing N is a big win.
 
-	runs := c.detectRuns(src.origin, matched, len(target.Tokens), len(src.Tokens), confidence, q)
+	// Analyze the target as if it were preceded by errorMargin unknown tokens, so
+	// that a source whose first tokens are missing from the very start of the
+	// target is treated exactly as it would be anywhere else in a larger file
+	// (hits with a small negative target-source offset would otherwise all be
+	// piled onto index 0).
+	shift := int(math.Round(float64(len(src.Tokens)) * (1.0 - confidence)))
+	for _, m := range matched {
+		m.TargetStart += shift
+		m.TargetEnd += shift
+	}
+	runs := c.detectRuns(src.origin, matched, len(target.Tokens)+shift, len(src.Tokens), confidence, q)
 
 	if shouldTrace {
 		c.tc.trace("runs = %d: %s", len(runs), spew.Sdump(runs))
@@ -361,7 +371,16 @@ func (c *Classifier) getMatchedRanges(src, target *searchSet, confidence float64
 	// match ranges into larger matches (with possible errors) to see if we can
 	// produce large enough runs that pass the confidence threshold.
 
-	fr := c.fuseRanges(src.origin, matched, confidence, len(src.Tokens), runs, len(target.Tokens))
+	fr := c.fuseRanges(src.origin, matched, confidence, len(src.Tokens), runs, len(target.Tokens)+shift)
+	for _, m := range matched {
+		m.TargetStart -= shift
+		m.TargetEnd -= shift
+	}
+	for _, m := range fr {
+		if m.TargetStart < 0 {
+			m.TargetStart = 0
+		}
+	}
 	if shouldTrace {
 		c.tc.trace("fr = %s", spew.Sdump(fr))
 	}
